@@ -71,6 +71,7 @@ int32_t psPemFileToDer(psPool_t *pool,
                     NULL))
     {
         psTraceCrypto("psPemFileToDer: file not in expected PEM format\n");
+        psFree(pemBuf, pool);
         return PS_FAILURE;
     }
     rc = psPemDecode(pool,
